@@ -1,22 +1,652 @@
 /-
 Lemmas behind C01 (mutation closure) and C13 (mutation is local), for every spec / value / nesting.
+
+  * `mutAcc_zero_id`     : probability 0, the output is the input
+  * `mutAcc_conf`        : mutation preserves conformance.  STATEMENT CHANGE: one ADDED HYPOTHESIS
+                           `(hk : keysBounded vo = true)` (every map key of the output is `≤ usizeMax`), see the
+                           counterexample at `keysBounded` below
+  * `mutAcc_resizeLocal` : every accepted output satisfies C13's locality predicate
 -/
 import CambrianModel.Model.Mutation
+import CambrianModel.Lemmas.JsonLemmas
 namespace Cambrian
 
-/-- mutation preserves conformance: every accepted output of a conforming input conforms -/
-theorem mutAcc_conf (pc : PClass) (s : SNode) (vi vo : VNode) (hs : wf s = true) (hi : conf s vi = true)
-    (h : mutAcc pc s vi vo = true) : conf s vo = true := by
-  sorry
+/-! ### probability 0: the output is the input -/
 
+mutual
 /-- probability 0: the output is the input -/
 theorem mutAcc_zero_id (s : SNode) (vi vo : VNode) (hi : conf s vi = true)
     (h : mutAcc .zero s vi vo = true) : vo = vi := by
-  sorry
+  cases vo with
+  | real y => cases s <;> cases vi <;> simp [mutAcc] at h <;> simp [h]
+  | int y => cases s <;> cases vi <;> simp [mutAcc] at h <;> simp [h]
+  | bool y => cases s <;> cases vi <;> simp [mutAcc] at h <;> simp [h]
+  | «enum» y => cases s <;> cases vi <;> simp [mutAcc] at h <;> simp [h]
+  | const => cases s <;> cases vi <;> simp [mutAcc] at h <;> simp [conf] at hi <;> rfl
+  | onone => cases s <;> cases vi <;> simp [mutAcc] at h <;> rfl
+  | osome v' =>
+      cases s <;> cases vi <;> simp [mutAcc] at h
+      case opt.osome e _ v => rw [mutAcc_zero_id e v v' (by simpa [conf] using hi) h]
+  | sub fo =>
+      cases s <;> cases vi <;> simp [mutAcc] at h
+      case sub.sub sf fi => rw [mutAcc_zero_fields sf fi fo (by simpa [conf] using hi) h]
+  | array lo =>
+      cases s <;> cases vi <;> simp [mutAcc] at h
+      case array.array e _ li =>
+        simp only [conf, Bool.and_eq_true] at hi
+        rw [mutAcc_zero_list e li lo hi.2 h]
+  | variant n' v' =>
+      cases s <;> cases vi <;> try (simp [mutAcc] at h; done)
+      case variant.variant opts _ n v =>
+        simp only [mutAcc] at h
+        split at h
+        · rename_i hn
+          simp at h
+          have hn' : n = n' := by simpa using hn
+          subst hn'
+          simp only [conf] at hi
+          cases ho : opts.lookup n with
+          | none => simp [ho] at h
+          | some cs =>
+            simp only [ho] at h hi
+            rw [mutAcc_zero_id cs v v' hi h]
+        · simp at h
+  | amap mo =>
+      cases s <;> cases vi <;> try (simp [mutAcc] at h; done)
+      case amap.amap e _ mn mx mi =>
+        simp only [conf, Bool.and_eq_true] at hi
+        simp only [mutAcc] at h
+        split at h
+        · simp at h; rw [mutAcc_zero_same e mi mo hi.2 h]
+        · split at h
+          · simp at h
+          · split at h
+            · split at h <;> simp at h
+            · simp at h
+theorem mutAcc_zero_fields (sf : SFields) (fi fo : VFields) (hi : confFields sf fi = true)
+    (h : mutAccFields .zero sf fi fo = true) : fo = fi := by
+  cases fo with
+  | nil => cases sf <;> cases fi <;> simp [mutAccFields] at h <;> rfl
+  | cons k2 v' vr' =>
+      cases sf <;> cases fi <;> simp [mutAccFields] at h
+      case cons.cons k s sr k1 v vr =>
+        simp only [confFields, Bool.and_eq_true] at hi
+        obtain ⟨⟨⟨h1, h2⟩, h3⟩, h4⟩ := h
+        rw [mutAcc_zero_id s v v' hi.1.2 h3, mutAcc_zero_fields sr vr vr' hi.2 h4, ← h1, ← h2]
+theorem mutAcc_zero_list (e : SNode) (li lo : VList) (hi : confList e li = true)
+    (h : mutAccList .zero e li lo = true) : lo = li := by
+  cases lo with
+  | nil => cases li <;> simp [mutAccList] at h <;> rfl
+  | cons v' r' =>
+      cases li <;> simp [mutAccList] at h
+      case cons v r =>
+        simp only [confList, Bool.and_eq_true] at hi
+        rw [mutAcc_zero_id e v v' hi.1 h.1, mutAcc_zero_list e r r' hi.2 h.2]
+theorem mutAcc_zero_same (e : SNode) (mi mo : VEntries) (hi : confEntries e mi = true)
+    (h : mutAccSame .zero e mi mo = true) : mo = mi := by
+  cases mo with
+  | nil => cases mi <;> simp [mutAccSame] at h <;> rfl
+  | cons k' v' r' =>
+      cases mi <;> simp [mutAccSame] at h
+      case cons k v r =>
+        simp only [confEntries, Bool.and_eq_true] at hi
+        rw [mutAcc_zero_id e v v' hi.1 h.1.2, mutAcc_zero_same e r r' hi.2 h.2, h.1.1]
+end
 
+
+/-! ### mutation preserves conformance -/
+
+theorem F64.max_fin (a b : Int) : F64.max (.fin a) (.fin b) = .fin (if a < b then b else a) := by
+  simp only [F64.max, F64.lt]; by_cases h : a < b <;> simp [h]
+theorem F64.min_fin (a b : Int) : F64.min (.fin a) (.fin b) = .fin (if b < a then b else a) := by
+  simp only [F64.min, F64.lt]; by_cases h : b < a <;> simp [h]
+
+theorem realOut_inBounds (y : F64) (mn mx : Option F64)
+    (hlt : (match mn, mx with | some a, some b => F64.lt a b | _, _ => true) = true)
+    (hmn : optAll F64.isFinite mn = true) (hmx : optAll F64.isFinite mx = true)
+    (h : realOut y mn mx = true) : inBoundsF y mn mx = true := by
+  cases y <;> simp [realOut, F64.isFinite] at h
+  rcases mn with _ | (_ | _ | a | _) <;> rcases mx with _ | (_ | _ | b | _) <;>
+    simp [optAll, F64.isFinite] at hmn hmx <;>
+    simp [F64.lt] at hlt <;>
+    simp [clampR, F64.max_fin, F64.min_fin] at h <;>
+    simp [inBoundsF, optAll, F64.isFinite, F64.le_fin] <;>
+    (try split at h) <;> (try split at h) <;> omega
+
+theorem intOut_inBounds (y : Int) (mn mx : Option Int)
+    (hlt : (match mn, mx with | some a, some b => decide (a < b) | _, _ => true) = true)
+    (h : intOut y mn mx = true) : inBoundsI y mn mx = true := by
+  simp only [intOut, Bool.and_eq_true] at h
+  obtain ⟨h1, h2⟩ := h
+  rcases mn with _ | a <;> rcases mx with _ | b <;>
+    simp [clampI] at h2 <;> simp at hlt <;> simp [inBoundsI, optAll, h1] <;>
+    (try split at h2) <;> (try split at h2) <;> omega
+
+
+/-! ### entries helpers -/
+theorem VEntries.lookup_conf (e : SNode) : ∀ (m : VEntries) (k : Nat) (v : VNode), confEntries e m = true →
+    m.lookup k = some v → conf e v = true
+  | .nil, _, _, _, h => by simp [VEntries.lookup] at h
+  | .cons k' v' r, k, v, hc, h => by
+      simp only [confEntries, Bool.and_eq_true] at hc
+      simp only [VEntries.lookup] at h
+      split at h
+      · injection h with h; subst h; exact hc.1
+      · exact VEntries.lookup_conf e r k v hc.2 h
+
+theorem VEntries.any_conf (e : SNode) (f : VNode → Bool) : ∀ (m : VEntries), confEntries e m = true →
+    m.any f = true → ∃ v, conf e v = true ∧ f v = true
+  | .nil, _, h => by simp [VEntries.any] at h
+  | .cons _ v r, hc, h => by
+      simp only [confEntries, Bool.and_eq_true] at hc
+      simp only [VEntries.any, Bool.or_eq_true] at h
+      rcases h with h | h
+      · exact ⟨v, hc.1, h⟩
+      · exact VEntries.any_conf e f r hc.2 h
+
+theorem VEntries.lookup_mem_keys : ∀ (m : VEntries) (k : Nat) (v : VNode), m.lookup k = some v → k ∈ m.keys
+  | .nil, _, _, h => by simp [VEntries.lookup] at h
+  | .cons k' v' r, k, v, h => by
+      simp only [VEntries.lookup] at h
+      simp only [VEntries.keys, List.mem_cons]
+      split at h
+      · rename_i hk; left; simpa using Eq.symm (by simpa using hk)
+      · right; exact VEntries.lookup_mem_keys r k v h
+
+/-! ### size bounds -/
+theorem sizeOk_remove (n n' : Nat) (mn mx : Option Nat) (h : sizeOk n mn mx = true) (hn : n' + 1 = n)
+    (hmin : atMin n mn = false) : sizeOk n' mn mx = true := by
+  subst hn
+  rcases mn with _ | a <;> rcases mx with _ | b <;> simp [sizeOk, optAll] at h ⊢ <;> simp [atMin] at hmin <;> omega
+
+theorem sizeOk_add (n n' : Nat) (mn mx : Option Nat)
+    (hlt : (match mn, mx with | some a, some b => decide (a < b) | _, _ => true) = true)
+    (h : sizeOk n mn mx = true) (hn : n' = n + 1)
+    (h0 : (mx != some 0) = true)
+    (hc : (atMin n mn || !(atMax n mx)) = true) : sizeOk n' mn mx = true := by
+  subst hn
+  rcases mn with _ | a <;> rcases mx with _ | b <;> simp [sizeOk, optAll] at h ⊢ <;> simp [atMin, atMax] at hc <;>
+    simp at hlt h0 <;> omega
+
+/-! ### ADDED HYPOTHESIS of `mutAcc_conf`
+
+`keysBounded v`: every map key anywhere in `v` is at most `usize::MAX` (true of every Rust value: keys are `usize`).
+The acceptor `mutAcc` puts no bound on the key of an ADDED map element (it only demands that the key is not a key of
+the input map), while `conf` demands `k ≤ usizeMax` of every key; so without this hypothesis `mutAcc_conf` is false
+(the `example` after the definition is the counterexample). -/
+mutual
+def keysBounded : VNode → Bool
+  | .sub f => keysBoundedFields f
+  | .array l => keysBoundedList l
+  | .amap m => keysBoundedEntries m
+  | .variant _ v => keysBounded v
+  | .osome v => keysBounded v
+  | _ => true
+def keysBoundedFields : VFields → Bool
+  | .nil => true | .cons _ v r => keysBounded v && keysBoundedFields r
+def keysBoundedList : VList → Bool
+  | .nil => true | .cons v r => keysBounded v && keysBoundedList r
+def keysBoundedEntries : VEntries → Bool
+  | .nil => true | .cons k v r => decide (k ≤ usizeMax) && keysBounded v && keysBoundedEntries r
+end
+
+/-- counterexample to `mutAcc_conf` without `keysBounded`: the empty map under a well-formed map spec conforms,
+    the acceptor accepts the one-element map with key `usizeMax + 1`, which does not conform -/
+example :
+    let s : SNode := .amap (.bool true) 0 none none
+    let vi : VNode := .amap .nil
+    let vo : VNode := .amap (.cons (usizeMax + 1) (.bool false) .nil)
+    wf s = true ∧ conf s vi = true ∧ mutAcc .one s vi vo = true ∧ conf s vo = false ∧ keysBounded vo = false := by
+  decide
+
+theorem keysBoundedEntries_keys : ∀ (m : VEntries), keysBoundedEntries m = true →
+    m.keys.all (fun k => decide (k ≤ usizeMax)) = true
+  | .nil, _ => by simp [VEntries.keys]
+  | .cons k v r, h => by
+      simp only [keysBoundedEntries, Bool.and_eq_true] at h
+      simp only [VEntries.keys, List.all_cons, Bool.and_eq_true]
+      exact ⟨h.1.1, keysBoundedEntries_keys r h.2⟩
+
+mutual
+/-- mutation preserves conformance: every accepted output of a conforming input conforms
+    (ADDED HYPOTHESIS `hk`, see `keysBounded`) -/
+theorem mutAcc_conf (pc : PClass) (s : SNode) (vi vo : VNode) (hs : wf s = true) (hi : conf s vi = true)
+    (hk : keysBounded vo = true) (h : mutAcc pc s vi vo = true) : conf s vo = true := by
+  cases vo with
+  | real y =>
+      cases s <;> cases vi <;> try (simp [mutAcc] at h; done)
+      rename_i i sc mn mx x
+      simp only [wf, Bool.and_eq_true] at hs
+      simp only [conf] at hi ⊢
+      have hr := realOut_inBounds y mn mx hs.1.1.2 hs.1.1.1.1.2 hs.1.1.1.2
+      cases pc <;> simp [mutAcc] at h
+      · subst h; exact hi
+      · rcases h with h | h
+        · subst h; exact hi
+        · exact hr h
+      · rcases h with h | h
+        · subst h; exact hi
+        · exact hr h
+  | int y =>
+      cases s <;> cases vi <;> try (simp [mutAcc] at h; done)
+      rename_i i sc mn mx x
+      simp only [wf, Bool.and_eq_true] at hs
+      simp only [conf] at hi ⊢
+      have hr := intOut_inBounds y mn mx hs.1.1.2
+      cases pc <;> simp [mutAcc] at h
+      · subst h; exact hi
+      · rcases h with h | h
+        · subst h; exact hi
+        · exact hr h
+      · rcases h with h | h
+        · subst h; exact hi
+        · exact hr h
+  | bool y => cases s <;> cases vi <;> simp [mutAcc] at h <;> simp [conf]
+  | «enum» y =>
+      cases s <;> cases vi <;> try (simp [mutAcc] at h; done)
+      simp only [conf] at hi ⊢
+      cases pc <;> simp [mutAcc] at h
+      · subst h; exact hi
+      · rcases h with h | h
+        · subst h; exact hi
+        · simpa using h
+      · simpa using h.2
+  | const => cases s <;> cases vi <;> simp [mutAcc] at h <;> simp [conf]
+  | onone => cases s <;> cases vi <;> simp [mutAcc] at h <;> simp [conf]
+  | osome v' =>
+      cases s <;> cases vi <;> try (simp [mutAcc] at h; done)
+      all_goals
+        simp only [wf] at hs
+        simp only [keysBounded] at hk
+        simp only [mutAcc, Bool.and_eq_true] at h
+        simp only [conf] at hi ⊢
+      · rename_i e _
+        exact mutAcc_conf pc e _ v' hs (initialValue_conf e hs) hk h.2
+      · rename_i e _ v
+        exact mutAcc_conf pc e v v' hs hi hk h.2
+  | sub fo =>
+      cases s <;> cases vi <;> try (simp [mutAcc] at h; done)
+      rename_i sf fi
+      simp only [wf, Bool.and_eq_true] at hs
+      simp only [keysBounded] at hk
+      simp only [mutAcc, Bool.and_eq_true] at h
+      simp only [conf] at hi ⊢
+      exact mutAcc_conf_fields pc sf fi fo hs.2 hi hk h.2
+  | array lo =>
+      cases s <;> cases vi <;> try (simp [mutAcc] at h; done)
+      rename_i e n li
+      simp only [wf, Bool.and_eq_true] at hs
+      simp only [keysBounded] at hk
+      simp only [mutAcc, Bool.and_eq_true] at h
+      simp only [conf, Bool.and_eq_true] at hi ⊢
+      obtain ⟨h1, h2⟩ := mutAcc_conf_list pc e li lo hs.2 hi.2 hk h.2
+      exact ⟨by rw [h2]; exact hi.1, h1⟩
+  | variant n' v' =>
+      cases s <;> cases vi <;> try (simp [mutAcc] at h; done)
+      rename_i opts i n v
+      simp only [wf, Bool.and_eq_true] at hs
+      simp only [keysBounded] at hk
+      simp only [mutAcc] at h
+      simp only [conf] at hi ⊢
+      split at h
+      · rename_i hn
+        have hn' : n = n' := by simpa using hn
+        subst hn'
+        simp only [Bool.and_eq_true] at h
+        cases ho : opts.lookup n with
+        | none => simp [ho] at h
+        | some cs =>
+          simp only [ho] at h hi ⊢
+          exact mutAcc_conf pc cs v v' (lookup_wf opts n cs hs.2 ho) hi hk h.2
+      · simp only [Bool.and_eq_true] at h
+        cases ho : opts.lookup n' with
+        | none => simp [ho] at h
+        | some cs =>
+          simp only [ho] at h ⊢
+          have hw := lookup_wf opts n' cs hs.2 ho
+          exact mutAcc_conf pc cs _ v' hw (initialValue_conf cs hw) hk h.2
+  | amap mo =>
+      cases s <;> cases vi <;> try (simp [mutAcc] at h; done)
+      rename_i e ini mn mx mi
+      simp only [wf, Bool.and_eq_true] at hs
+      simp only [keysBounded] at hk
+      simp only [mutAcc] at h
+      simp only [conf, Bool.and_eq_true] at hi ⊢
+      have hkb := keysBoundedEntries_keys mo hk
+      split at h
+      · rename_i hn
+        simp only [Bool.and_eq_true] at h
+        obtain ⟨h1, h2⟩ := mutAcc_conf_same pc e mi mo hs.2 hi.2 hk h.2
+        have hn' : mo.length = mi.length := by simpa using hn
+        exact ⟨⟨⟨by rw [h2]; exact hi.1.1.1, hkb⟩, by rw [hn']; exact hi.1.2⟩, h1⟩
+      · split at h
+        · rename_i hn
+          have hn' : mo.length + 1 = mi.length := by simpa using hn
+          simp only [Bool.and_eq_true] at h
+          refine ⟨⟨⟨h.1.1.2, hkb⟩, ?_⟩, mutAcc_conf_entries pc e mi none mo hs.2 hi.2 hk h.2⟩
+          exact sizeOk_remove _ _ mn mx hi.1.2 hn' (by simpa using h.1.1.1.2)
+        · split at h
+          · rename_i hn
+            have hn' : mo.length = mi.length + 1 := by simpa using hn
+            split at h
+            · rename_i k hf
+              simp only [Bool.and_eq_true] at h
+              refine ⟨⟨⟨h.1.2, hkb⟩, ?_⟩, mutAcc_conf_entries pc e mi (some k) mo hs.2 hi.2 hk h.2⟩
+              exact sizeOk_add _ _ mn mx hs.1.1.1.1.1 hi.1.2 hn' hs.1.1.1.1.2 h.1.1.2
+            · simp at h
+          · simp at h
+termination_by structural vo
+theorem mutAcc_conf_fields (pc : PClass) (sf : SFields) (fi fo : VFields) (hs : wfFields sf = true)
+    (hi : confFields sf fi = true) (hk : keysBoundedFields fo = true)
+    (h : mutAccFields pc sf fi fo = true) : confFields sf fo = true := by
+  cases fo with
+  | nil => cases sf <;> cases fi <;> simp [mutAccFields] at h <;> simp [confFields]
+  | cons k2 v' vr' =>
+      cases sf <;> cases fi <;> try (simp [mutAccFields] at h; done)
+      rename_i k s sr k1 v vr
+      simp only [wfFields, Bool.and_eq_true] at hs
+      simp only [keysBoundedFields, Bool.and_eq_true] at hk
+      simp only [mutAccFields, Bool.and_eq_true] at h
+      simp only [confFields, Bool.and_eq_true] at hi ⊢
+      exact ⟨⟨h.1.1.2, mutAcc_conf pc s v v' hs.1 hi.1.2 hk.1 h.1.2⟩,
+        mutAcc_conf_fields pc sr vr vr' hs.2 hi.2 hk.2 h.2⟩
+termination_by structural fo
+theorem mutAcc_conf_list (pc : PClass) (e : SNode) (li lo : VList) (hs : wf e = true)
+    (hi : confList e li = true) (hk : keysBoundedList lo = true)
+    (h : mutAccList pc e li lo = true) : confList e lo = true ∧ lo.length = li.length := by
+  cases lo with
+  | nil => cases li <;> simp [mutAccList] at h <;> simp [confList, VList.length]
+  | cons v' r' =>
+      cases li <;> try (simp [mutAccList] at h; done)
+      rename_i v r
+      simp only [keysBoundedList, Bool.and_eq_true] at hk
+      simp only [mutAccList, Bool.and_eq_true] at h
+      simp only [confList, Bool.and_eq_true] at hi ⊢
+      obtain ⟨h1, h2⟩ := mutAcc_conf_list pc e r r' hs hi.2 hk.2 h.2
+      exact ⟨⟨mutAcc_conf pc e v v' hs hi.1 hk.1 h.1, h1⟩, by simp [VList.length, h2]⟩
+termination_by structural lo
+theorem mutAcc_conf_same (pc : PClass) (e : SNode) (mi mo : VEntries) (hs : wf e = true)
+    (hi : confEntries e mi = true) (hk : keysBoundedEntries mo = true)
+    (h : mutAccSame pc e mi mo = true) : confEntries e mo = true ∧ mo.keys = mi.keys := by
+  cases mo with
+  | nil => cases mi <;> simp [mutAccSame] at h <;> simp [confEntries, VEntries.keys]
+  | cons k' v' r' =>
+      cases mi <;> try (simp [mutAccSame] at h; done)
+      rename_i k v r
+      simp only [keysBoundedEntries, Bool.and_eq_true] at hk
+      simp only [mutAccSame, Bool.and_eq_true] at h
+      simp only [confEntries, Bool.and_eq_true] at hi ⊢
+      obtain ⟨h1, h2⟩ := mutAcc_conf_same pc e r r' hs hi.2 hk.2 h.2
+      have hkk : k = k' := by simpa using h.1.1
+      exact ⟨⟨mutAcc_conf pc e v v' hs hi.1 hk.1.2 h.1.2, h1⟩, by simp [VEntries.keys, h2, hkk]⟩
+termination_by structural mo
+theorem mutAcc_conf_entries (pc : PClass) (e : SNode) (mi : VEntries) (added : Option Nat) (mo : VEntries)
+    (hs : wf e = true) (hi : confEntries e mi = true) (hk : keysBoundedEntries mo = true)
+    (h : mutAccEntries pc e mi added mo = true) : confEntries e mo = true := by
+  cases mo with
+  | nil => simp [confEntries]
+  | cons k v' r =>
+      simp only [keysBoundedEntries, Bool.and_eq_true] at hk
+      simp only [mutAccEntries, Bool.and_eq_true] at h
+      simp only [confEntries, Bool.and_eq_true]
+      refine ⟨?_, mutAcc_conf_entries pc e mi added r hs hi hk.2 h.2⟩
+      have h1 := h.1
+      split at h1
+      · cases mi with
+        | nil => exact mutAcc_conf pc e _ v' hs (initialValue_conf e hs) hk.1.2 h1
+        | cons k0 v0 r0 =>
+          obtain ⟨src, hc, hm⟩ := VEntries.any_conf e _ _ hi h1
+          exact mutAcc_conf pc e src v' hs hc hk.1.2 hm
+      · cases hl : mi.lookup k with
+        | none => simp [hl] at h1
+        | some v =>
+          simp only [hl] at h1
+          exact mutAcc_conf pc e v v' hs (VEntries.lookup_conf e mi k v hi hl) hk.1.2 h1
+termination_by structural mo
+end
+
+
+/-! ### mutation is local -/
+
+theorem sortedNat_pairwise : ∀ (l : List Nat), sortedNat l = true ↔ l.Pairwise (· < ·)
+  | [] => by simp [sortedNat]
+  | a :: l => by rw [sortedNat_cons, List.pairwise_cons, sortedNat_pairwise l]
+
+/-- pigeonhole: a duplicate-free list inside a list that is not longer covers it -/
+theorem covers_of_sorted_subset : ∀ (L B : List Nat), L.Pairwise (· < ·) → (∀ x ∈ L, x ∈ B) → B.length ≤ L.length →
+    ∀ x ∈ B, x ∈ L
+  | [], B, _, _, hlen, x, hx => by
+      have : B = [] := List.eq_nil_of_length_eq_zero (by simpa using hlen)
+      subst this; exact hx
+  | a :: L, B, hp, hsub, hlen, x, hx => by
+      rw [List.pairwise_cons] at hp
+      have ha : a ∈ B := hsub a (by simp)
+      have hlen' : (B.erase a).length ≤ L.length := by
+        rw [List.length_erase_of_mem ha]; simp at hlen; omega
+      have hsub' : ∀ y ∈ L, y ∈ B.erase a := fun y hy => by
+        have hne : y ≠ a := by have := hp.1 y hy; omega
+        exact (List.mem_erase_of_ne hne).2 (hsub y (by simp [hy]))
+      by_cases hxa : x = a
+      · simp [hxa]
+      · have := covers_of_sorted_subset L (B.erase a) hp.2 hsub' hlen' x ((List.mem_erase_of_ne hxa).2 hx)
+        simp [this]
+
+theorem length_filter_split (p : Nat → Bool) : ∀ (l : List Nat),
+    (l.filter p).length + (l.filter (fun x => !p x)).length = l.length
+  | [] => rfl
+  | a :: l => by
+      have := length_filter_split p l
+      cases hp : p a <;> simp [List.filter, hp] <;> omega
+
+/-- the add case: one new key, one more element, no duplicates: no input key disappeared -/
+theorem add_keys_subset (A B : List Nat) (k : Nat) (hA : sortedNat A = true)
+    (hf : A.filter (fun x => !(B.contains x)) = [k]) (hlen : A.length = B.length + 1) :
+    B.all (A.contains ·) = true := by
+  have hsplit := length_filter_split (fun x => B.contains x) A
+  simp only [hf, List.length_cons, List.length_nil] at hsplit
+  have hp : (A.filter (fun x => B.contains x)).Pairwise (· < ·) :=
+    List.Pairwise.filter _ ((sortedNat_pairwise A).1 hA)
+  have hsub : ∀ x ∈ A.filter (fun x => B.contains x), x ∈ B := fun x hx => by
+    simpa using (List.mem_filter.1 hx).2
+  have := covers_of_sorted_subset _ B hp hsub (by omega)
+  simp only [List.all_eq_true, List.contains_eq_mem, decide_eq_true_eq]
+  intro x hx
+  exact (List.mem_filter.1 (this x hx)).1
+
+theorem VEntries.lookup_none_of_not_mem : ∀ (m : VEntries) (k : Nat), ¬ k ∈ m.keys → m.lookup k = none
+  | .nil, _, _ => rfl
+  | .cons k' v' r, k, h => by
+      simp only [VEntries.keys, List.mem_cons, not_or] at h
+      simp only [VEntries.lookup]
+      have : ¬ k' = k := fun hh => h.1 hh.symm
+      simp [this, VEntries.lookup_none_of_not_mem r k h.2]
+
+theorem mutAccSame_keys (pc : PClass) (e : SNode) : ∀ (mi mo : VEntries), mutAccSame pc e mi mo = true → mo.keys = mi.keys
+  | .nil, .nil, _ => rfl
+  | .cons _ _ r, .cons _ _ r', h => by
+      simp [mutAccSame] at h
+      simp [VEntries.keys, mutAccSame_keys pc e r r' h.2, h.1.1]
+  | .nil, .cons _ _ _, h => by simp [mutAccSame] at h
+  | .cons _ _ _, .nil, h => by simp [mutAccSame] at h
+
+/-- with duplicate-free keys, pairing entries by position is pairing them by key -/
+theorem mutAccSame_entries (pc : PClass) (e : SNode) (full : VEntries) : ∀ (mi mo : VEntries),
+    mutAccSame pc e mi mo = true → sortedNat mi.keys = true →
+    (∀ k v, mi.lookup k = some v → full.lookup k = some v) → mutAccEntries pc e full none mo = true
+  | .nil, .nil, _, _, _ => by simp [mutAccEntries]
+  | .cons k v r, .cons k' v' r', h, hsrt, hl => by
+      simp only [mutAccSame, Bool.and_eq_true, beq_iff_eq] at h
+      obtain ⟨⟨hk, hm⟩, hr⟩ := h
+      subst hk
+      simp only [VEntries.keys, sortedNat_cons] at hsrt
+      have h1 : full.lookup k = some v := hl k v (by simp [VEntries.lookup])
+      have h2 : ∀ k2 v2, r.lookup k2 = some v2 → full.lookup k2 = some v2 := fun k2 v2 h2 => by
+        apply hl
+        have := hsrt.1 k2 (VEntries.lookup_mem_keys r k2 v2 h2)
+        have hne : ¬ k = k2 := by omega
+        simp [VEntries.lookup, hne, h2]
+      simp [mutAccEntries, h1, hm, mutAccSame_entries pc e full r r' hr hsrt.2 h2]
+  | .nil, .cons _ _ _, h, _, _ => by simp [mutAccSame] at h
+  | .cons _ _ _, .nil, h, _, _ => by simp [mutAccSame] at h
+
+
+
+mutual
 /-- every accepted output satisfies C13's locality predicate -/
 theorem mutAcc_resizeLocal (pc : PClass) (s : SNode) (vi vo : VNode) (hs : wf s = true) (hi : conf s vi = true)
     (h : mutAcc pc s vi vo = true) : resizeLocal pc s vi vo = true := by
-  sorry
+  cases vo with
+  | real y => cases s <;> cases vi <;> simp [resizeLocal]
+  | int y => cases s <;> cases vi <;> simp [resizeLocal]
+  | bool y => cases s <;> cases vi <;> simp [resizeLocal]
+  | «enum» y => cases s <;> cases vi <;> simp [resizeLocal]
+  | const => cases s <;> cases vi <;> simp [resizeLocal]
+  | onone => cases s <;> cases vi <;> simp [resizeLocal]
+  | osome v' =>
+      cases s <;> cases vi <;> try (simp [mutAcc] at h; done)
+      all_goals
+        simp only [wf] at hs
+        simp only [mutAcc, Bool.and_eq_true] at h
+        simp only [conf] at hi
+        simp only [resizeLocal]
+      · rename_i e _
+        exact mutAcc_resizeLocal pc e _ v' hs (initialValue_conf e hs) h.2
+      · rename_i e _ v
+        exact mutAcc_resizeLocal pc e v v' hs hi h.2
+  | sub fo =>
+      cases s <;> cases vi <;> try (simp [mutAcc] at h; done)
+      rename_i sf fi
+      simp only [wf, Bool.and_eq_true] at hs
+      simp only [mutAcc, Bool.and_eq_true] at h
+      simp only [conf] at hi
+      simp only [resizeLocal]
+      exact mutAcc_rl_fields pc sf fi fo hs.2 hi h.2
+  | array lo =>
+      cases s <;> cases vi <;> try (simp [mutAcc] at h; done)
+      rename_i e n li
+      simp only [wf, Bool.and_eq_true] at hs
+      simp only [mutAcc, Bool.and_eq_true] at h
+      simp only [conf, Bool.and_eq_true] at hi
+      simp only [resizeLocal]
+      exact mutAcc_rl_list pc e li lo hs.2 hi.2 h.2
+  | variant n' v' =>
+      cases s <;> cases vi <;> try (simp [mutAcc] at h; done)
+      rename_i opts i n v
+      simp only [wf, Bool.and_eq_true] at hs
+      simp only [mutAcc] at h
+      simp only [conf] at hi
+      simp only [resizeLocal]
+      split at h
+      · rename_i hn
+        have hn' : n = n' := by simpa using hn
+        subst hn'
+        simp only [Bool.and_eq_true] at h
+        cases ho : opts.lookup n with
+        | none => simp
+        | some cs =>
+          simp only [ho] at h hi
+          simp only [beq_self_eq_true, if_true]
+          exact mutAcc_resizeLocal pc cs v v' (lookup_wf opts n cs hs.2 ho) hi h.2
+      · rename_i hn
+        simp only [Bool.and_eq_true] at h
+        cases ho : opts.lookup n' with
+        | none => simp
+        | some cs =>
+          simp only [ho] at h
+          simp only [hn]
+          have hw := lookup_wf opts n' cs hs.2 ho
+          exact mutAcc_resizeLocal pc cs _ v' hw (initialValue_conf cs hw) h.2
+  | amap mo =>
+      cases s <;> cases vi <;> try (simp [mutAcc] at h; done)
+      rename_i e ini mn mx mi
+      simp only [wf, Bool.and_eq_true] at hs
+      simp only [mutAcc] at h
+      simp only [conf, Bool.and_eq_true] at hi
+      simp only [resizeLocal, mapStepOk, Bool.and_eq_true]
+      split at h
+      · rename_i hn
+        simp only [Bool.and_eq_true] at h
+        have hkeys := mutAccSame_keys pc e mi mo h.2
+        have hent := mutAccSame_entries pc e mi mi mo h.2 hi.1.1.1 (fun _ _ hh => hh)
+        refine ⟨?_, mutAcc_rl_entries pc e mi none mo hs.2 hi.2 (by simp) hent⟩
+        simp only [hn, if_true, hkeys, Bool.and_eq_true, beq_self_eq_true, and_true]
+        cases pc <;> simp at h ⊢
+      · rename_i hn1
+        split at h
+        · rename_i hn
+          simp only [Bool.and_eq_true] at h
+          refine ⟨?_, mutAcc_rl_entries pc e mi none mo hs.2 hi.2 (by simp) h.2⟩
+          rw [if_neg hn1, if_pos hn, Bool.and_eq_true]
+          refine ⟨?_, h.1.2⟩
+          cases pc <;> simp at h ⊢
+        · rename_i hn2
+          split at h
+          · rename_i hn
+            have hn' : mo.length = mi.length + 1 := by simpa using hn
+            split at h
+            · rename_i k hf
+              simp only [Bool.and_eq_true] at h
+              have hknot : ¬ k ∈ mi.keys := by
+                have : k ∈ mo.keys.filter (fun k => !(mi.keys.contains k)) := by rw [hf]; simp
+                simpa using (List.mem_filter.1 this).2
+              refine ⟨?_, mutAcc_rl_entries pc e mi (some k) mo hs.2 hi.2 ?_ h.2⟩
+              · rw [if_neg hn1, if_neg hn2, if_pos hn, Bool.and_eq_true]
+                refine ⟨?_, add_keys_subset mo.keys mi.keys k h.1.2 hf ?_⟩
+                · cases pc <;> simp at h ⊢
+                · rw [← VEntries.length_eq_keys, ← VEntries.length_eq_keys]; exact hn'
+              · intro k' hk'
+                injection hk' with hk'; subst hk'
+                exact VEntries.lookup_none_of_not_mem mi _ hknot
+            · simp at h
+          · simp at h
+termination_by structural vo
+theorem mutAcc_rl_fields (pc : PClass) (sf : SFields) (fi fo : VFields) (hs : wfFields sf = true)
+    (hi : confFields sf fi = true) (h : mutAccFields pc sf fi fo = true) : resizeLocalFields pc sf fi fo = true := by
+  cases fo with
+  | nil => cases sf <;> cases fi <;> simp [resizeLocalFields]
+  | cons k2 v' vr' =>
+      cases sf <;> cases fi <;> try (simp [mutAccFields] at h; done)
+      rename_i k s sr k1 v vr
+      simp only [wfFields, Bool.and_eq_true] at hs
+      simp only [mutAccFields, Bool.and_eq_true] at h
+      simp only [confFields, Bool.and_eq_true] at hi
+      simp only [resizeLocalFields, Bool.and_eq_true]
+      exact ⟨mutAcc_resizeLocal pc s v v' hs.1 hi.1.2 h.1.2, mutAcc_rl_fields pc sr vr vr' hs.2 hi.2 h.2⟩
+termination_by structural fo
+theorem mutAcc_rl_list (pc : PClass) (e : SNode) (li lo : VList) (hs : wf e = true)
+    (hi : confList e li = true) (h : mutAccList pc e li lo = true) : resizeLocalList pc e li lo = true := by
+  cases lo with
+  | nil => cases li <;> simp [resizeLocalList]
+  | cons v' r' =>
+      cases li <;> try (simp [mutAccList] at h; done)
+      rename_i v r
+      simp only [mutAccList, Bool.and_eq_true] at h
+      simp only [confList, Bool.and_eq_true] at hi
+      simp only [resizeLocalList, Bool.and_eq_true]
+      exact ⟨mutAcc_resizeLocal pc e v v' hs hi.1 h.1, mutAcc_rl_list pc e r r' hs hi.2 h.2⟩
+termination_by structural lo
+theorem mutAcc_rl_entries (pc : PClass) (e : SNode) (mi : VEntries) (added : Option Nat) (mo : VEntries)
+    (hs : wf e = true) (hi : confEntries e mi = true) (hadd : ∀ k, added = some k → mi.lookup k = none)
+    (h : mutAccEntries pc e mi added mo = true) : resizeLocalEntries pc e mi mo = true := by
+  cases mo with
+  | nil => simp [resizeLocalEntries]
+  | cons k v' r =>
+      simp only [mutAccEntries, Bool.and_eq_true] at h
+      simp only [resizeLocalEntries, Bool.and_eq_true]
+      refine ⟨?_, mutAcc_rl_entries pc e mi added r hs hi hadd h.2⟩
+      have h1 := h.1
+      cases hl : mi.lookup k with
+      | none => simp
+      | some v =>
+        simp only
+        split at h1
+        · rename_i ha
+          have := hadd k (by simpa using ha)
+          rw [this] at hl; cases hl
+        · simp only [hl] at h1
+          exact mutAcc_resizeLocal pc e v v' hs (VEntries.lookup_conf e mi k v hi hl) h1
+termination_by structural mo
+end
+
 
 end Cambrian
